@@ -170,6 +170,12 @@ func body(ctx context.Context, n *NodeSpec, tag string, in string) (string, erro
 	switch n.Fault {
 	case "err":
 		return "", fmt.Errorf("wrapped: %w", &InjectedError{Node: tag})
+	case "cancelerr":
+		// the failing body also cancels the run's context: the node's failure is still what the run reports
+		if env.Cancel != nil {
+			env.Cancel()
+		}
+		return "", fmt.Errorf("wrapped: %w", &InjectedError{Node: tag})
 	case "panic":
 		panic("injected panic in " + tag)
 	case "cancel":
